@@ -414,6 +414,13 @@ func (r *report) finish() int {
 		a := r.aggs[n]
 		fmt.Printf("harness %-34s paths=%-6d ok=%-6d assume-ended=%-5d aborted=%-3d queries=%-7d solver=%.1fs instrs=%d reach=%v\n", n, a.Paths, a.OK, a.AssumeEnd, len(a.Aborts), a.Queries, a.SolverS, a.Instrs, a.Reach)
 	}
+	if r.Verbose {
+		for _, n := range names {
+			for nt, k := range r.aggs[n].Notes {
+				fmt.Printf("note %s: %s (%d)\n", n, nt, k)
+			}
+		}
+	}
 	fmt.Printf("property %s tier %s: %d paths, %d queries, solver %.1fs, load %.1fs, explore %.1fs, native replay %.1fs (%d passing paths validated), wall %.1fs\n",
 		r.Prop, r.Tier, states, queries, solverS, r.LoadS, r.ExploreS, replayS, validated, wall)
 	for _, l := range outLines {
